@@ -39,6 +39,7 @@ class MpzWorld:
         s.nsym = 0
         s.obligations = []     # (ok, text)
         s.trace = []
+        s.floor_rel = {}       # quotient symbol Q -> (expression e, k): Q = floor(e / k), i.e. k*Q <= e <= k*Q + k - 1
 
     def key(s, p):
         if not isinstance(p, Ptr):
@@ -118,6 +119,10 @@ class MpzWorld:
                 if hi is not None:
                     l = max(l, k0 - hi)
             s.bounds[x] = (l, h)
+            if c in (1, -1) and x in s.floor_rel and l != -INF and h != INF:
+                # a bound on a quotient symbol is a bound on what it was computed from
+                base, k = s.floor_rel[x]
+                s.refine_sym(base, lo=l * k, hi=h * k + k - 1)
 
     def compare(s, a, b):
         """three-way comparison of abstract integers -> -1, 0, 1 (path split when the intervals do not decide)"""
@@ -417,6 +422,22 @@ def noop(I, args, ins):
 def decide_hook(W):
     """comparisons between integer symbols with known bounds (the canonical value V) and constants, as path decisions"""
     def decide(pred, a, b):
+        # the symbolic side is a mathematical integer that may be negative (a centred value held in a signed machine integer);
+        # a constant on the other side is then the two's-complement image of a signed constant
+        w = getattr(getattr(W, 'interp', None), 'cmp_width', 64)
+        for k_ in range(2):
+            x_, c_ = (a, b) if k_ == 0 else (b, a)
+            if isinstance(c_, int) and not isinstance(x_, int):
+                try:
+                    lo_ = W.mk(x_).lo
+                except Incomplete:
+                    return None
+                if lo_ < 0:
+                    if pred[0] == 'u':
+                        return None        # unsigned order of a possibly negative value: not modelled
+                    if c_ >= (1 << (w - 1)):
+                        c_ -= 1 << w
+                        a, b = (a, c_) if k_ == 0 else (c_, b)
         try:
             x, y = W.mk(a), W.mk(b)
         except Incomplete:
@@ -427,6 +448,32 @@ def decide_hook(W):
         return {'eq': c == 0, 'ne': c != 0, 'ult': c < 0, 'ule': c <= 0, 'ugt': c > 0, 'uge': c >= 0,
                 'slt': c < 0, 'sle': c <= 0, 'sgt': c > 0, 'sge': c >= 0}.get(pred)
     return decide
+
+
+def binop_hook(W):
+    """machine-integer shifts / divisions / masks by a constant on a symbolic integer with a known interval: the quotient becomes
+    a fresh symbol Q = floor(e / k) whose bounds follow from those of e, and a later decision about Q refines e (refine_sym)"""
+    def f(I, op, a, b, ty):
+        if not isinstance(b, int) or isinstance(a, int):
+            return None
+        if op in ('ashr', 'lshr'):
+            k = 1 << b
+        elif op in ('sdiv', 'udiv') and b > 0:
+            k = b
+        else:
+            return None
+        e = as_poly(a)
+        lo, hi = W.rng(e)
+        if lo == -INF or hi == INF:
+            return None
+        if op in ('lshr', 'udiv', 'sdiv') and lo < 0:
+            return None            # logical shift / unsigned division of a possibly negative value, truncating division: not a floor
+        W.nsym += 1
+        q = 'Q%d' % W.nsym
+        W.bounds[q] = (lo // k, hi // k)
+        W.floor_rel[q] = (e, k)
+        return Poly.var(q)
+    return f
 
 
 def trunc_hook(W):
